@@ -7,7 +7,7 @@ from ..specs import ModelSpec, make_store
 from ._s import run_spec
 from .seqreplay import replay_history
 
-VALS = [None, "size", "badsize", "ok:sha256", "ok:sha256+size", "ok:sha3_256", "OK:md5", "OK:sha224", "ok:SHA-384+size",
+VALS = [None, "size", "badsize", "ok:sha256", "ok:sha256+size", "ok:MD5", "ok:SHA256+size", "ok:Sha1", "ok:SHA224", "ok:sha3_256", "OK:md5", "OK:sha224", "ok:SHA-384+size",
         "badck:sha256", "badck:sha224", "ok:sha256+badsize", "badck:md5+badsize"]
 
 
